@@ -1253,3 +1253,10 @@ func AfterFunc(d time.Duration, f func()) *time.Timer {
 	node := t.Node
 	return time.AfterFunc(d+timerEps(), func() { s.GoForeign(node, "afterfunc", f) })
 }
+
+// NextTimerEps returns the offset the next timer created by simulated code will
+// get (without consuming it), so that a harness can compute the exact fake
+// instants at which a ticker created by the next constructor call will fire:
+// the k-th timer created after this call gets NextTimerEps()+k-1 nanoseconds
+// (modulo 999983).
+func (s *Sim) NextTimerEps() time.Duration { return time.Duration(1 + (s.timerSeq+1)%999983) }
